@@ -126,7 +126,17 @@ def gen_case(seed, tier, index=0):
     case = _case(seed, style, opts, rng.pick(A.BODY_KINDS), name, n, clocks, hashseed=rng.randrange(8), extra_files=extra)
     if rng.chance(0.2):
         _cross_seed(case, rng)
+    if rng.chance(0.12):
+        _stdout_dies(case, rng)
     return case
+
+
+def _stdout_dies(case, rng):
+    """The reader of stdout goes away during a re-run (reuse annotate ... | head -1): whatever the command then
+    does, the files must stay as the first run left them."""
+    reps = [st for st in case["variants"][0]["steps"] if st.get("phase") == "repeat"]
+    for st in reps[1:]:
+        st["stdout_fail_after"] = rng.pick([0, 10, 40, 120])
 
 
 def _clocks(rng, n):
@@ -202,6 +212,8 @@ def _gen_multi(seed, rng):
             "name": names[0], "names": names, "variants": [{"hashseed": rng.randrange(8), "steps": steps}]}
     if rng.chance(0.6):
         _cross_seed(case, rng)
+    if rng.chance(0.15):
+        _stdout_dies(case, rng)
     return case
 
 
@@ -219,7 +231,7 @@ def oracle(case, results):
     first = None
     nrep = 0
     for k, (st, rec) in enumerate(zip(steps, recs)):
-        if rec.get("exc"):
+        if rec.get("exc") and not any(f.startswith("stdout:EPIPE") for f in rec.get("fired", [])):
             vs.append({"sig": f"C10/crashed/{rec['exc']['type']}/{tag}", "detail": rec["exc"]["tb"][-500:]})
             return vs
         for p in tracked:
@@ -231,7 +243,8 @@ def oracle(case, results):
                 return vs  # the set-up did not work out: nothing to judge
             continue
         nrep += 1
-        if rec.get("exit") != 0:
+        stdout_died = any(f.startswith("stdout:EPIPE") for f in rec.get("fired", []))
+        if rec.get("exit") != 0 and not stdout_died:
             if rec.get("exit") == 2 and nrep == 1:
                 return vs  # the combination is refused as a usage error: nothing to re-run
             vs.append({"sig": f"C10/nonzero-exit/run{min(nrep, 2)}/{tag}", "detail": f"run {nrep}: exit={rec.get('exit')} stdout={rec.get('stdout', '')[-300:]} argv={st['argv']}"})
